@@ -1,10 +1,16 @@
 import GuppyVerif.Spec.C32
-/-! # C32 — Accepted syntax is never silently ignored
+/-! # C32 — Accepted syntax is never silently ignored (partial: "looked at or rejected")
 
-The quantifier of the property is finite: Python 3.12's abstract grammar (node kinds × fields).
-`Gen/C32SyntaxCoverage.lean` is regenerated on every run from CPython's grammar and from the
-visitor sources of the tree under check, so each `decide` below is a complete proof about the code
-*as it is now* (finite enumeration, stated as such — there is no unbounded domain here). -/
+Every theorem in this file is a **table `decide`** over `Gen/C32SyntaxCoverage.lean`, which is regenerated on every
+run from CPython's grammar and from the visitor sources of the tree under check; the quantifier (node kinds × fields)
+is finite, so each `decide` is a complete enumeration of the *extracted table* — a statement about the code only as
+far as the extractor's notion of "read" (a syntactic attribute load on a variable typed by annotations / `visit_K`
+naming / ASDL chains) and the pipeline shape of `Model/C32Coverage.lean` are right; both are trusted and are
+cross-checked dynamically (probes through the real check + lowering).
+`Covered` means: the field is looked at by every consumer that can receive the node, or the populated field / the node
+kind / every way to reach it is rejected.  It does **not** mean "takes effect as in Python" (that half of the sentence is
+C03 / C05 territory and is only sampled by the clause-vs-base Hugr comparison), and the granularity is (kind, field),
+not individual operators. -/
 namespace GuppyVerif.C32
 
 /-- **C32**: no semantics-bearing field of any Python node kind is silently ignored by the
